@@ -41,6 +41,9 @@ A23 = ("arr2", ((1.0, 0.0, -1.0), (0.5, 2.0, 0.0)))
 
 SCALARS_PLAIN = [("c", 2), ("c", 0.75), ("k", 1, "bool"), ("k", 0.75, "np64"), ("k", 2, "npi"), ("k", -0.5, "a0")]
 SCALARS_OPTYX = [("C", 0.75), X, ("bin", "+", X, Y), ("bin", "*", ("c", 2), X), ("un", "sin", X), ("par", "p"),
+                 # variable-free arithmetic over a Parameter, and a Parameter multiplying a variable
+                 ("bin", "*", ("c", 3), ("par", "p")), ("un", "neg", ("par", "p")), ("bin", "+", ("par", "p"), ("c", 1)),
+                 ("bin", "*", ("par", "p"), X),
                  ("sum", V3), ("dot", V3, W3), ("bin", "-", ("bin", "**", X, ("c", 2)), Y), ("idx", V3, 1)]
 VECTORS_PLAIN = [("lst", (0.75, 2.0, -0.5)), ("arr", (0.75, 2.0, -0.5)), ("arr", (1.0, 2.0)), ("lst", (1.0, 2.0, 3.0, 4.0)),
                  ("arr", (0.75, 2.0, -0.5), "strided"), ("arr", (0.75, 2.0, -0.5), "reversed-view"), ("arr", (2, 0, -1), "int")]
@@ -134,26 +137,36 @@ def check_constraint(c, rep=None, want=None, capture=True):
         return fails
     names = sorted(set(var_names(l)) | set(var_names(r)), key=natural_key)
     pts, P = grid_for(names)
-    for k, (cn, d) in enumerate(zip(cons, diffs)):
-        vals, ok, err = ref_value(d, pts, P, params)
-        for i in np.flatnonzero(ok):
-            pd = {nm: float(pts[nm][i]) for nm in names}
-            dv = float(vals[i])
-            exp_v = PR.violation_ref(sense, dv)
+    # phase 1: parameters as at build time; phase 2: every Parameter .set() to another value AFTER the constraint was written
+    for phase, pval in (("built", 0.75), ("after-set", 2.0)) if params else (("built", 0.75),):
+        if phase == "after-set":
+            for pn in params:
+                b.parameter(pn).set(pval)
+            params = {pn: pval for pn in params}
             if rep:
-                rep.evaluations += 2
-            try:
-                got_v = cn.violation(pd)
-                got_s = cn.is_satisfied(pd)
-            except Exception as ex:
-                fails.add("built-but-unevaluable:" + type(ex).__name__, element=k, point=pd, msg=str(ex)[:200])
-                break
-            if abs(got_v - exp_v) > 1e-9 * max(1, abs(exp_v)) + err[i]:
-                fails.add("violation-amount", element=k, point=pd, got=got_v, expected=exp_v, sense=sense)
-                break
-            if abs(exp_v - 1e-8) > 1e-10 + err[i] and got_s != (exp_v <= 1e-8):
-                fails.add("is_satisfied", element=k, point=pd, got=got_s, violation=exp_v)
-                break
+                rep.transitions += len(params)
+        sfx = "" if phase == "built" else ":after-parameter-set"
+        for k, (cn, d) in enumerate(zip(cons, diffs)):
+            vals, ok, err = ref_value(d, pts, P, params)
+            for i in np.flatnonzero(ok):
+                pd = {nm: float(pts[nm][i]) for nm in names}
+                dv = float(vals[i])
+                exp_v = PR.violation_ref(sense, dv)
+                if rep:
+                    rep.evaluations += 2
+                try:
+                    got_v = cn.violation(pd)
+                    got_s = cn.is_satisfied(pd)
+                except Exception as ex:
+                    fails.add("built-but-unevaluable:" + type(ex).__name__ + sfx, element=k, point=pd, msg=str(ex)[:200])
+                    break
+                if abs(got_v - exp_v) > 1e-9 * max(1, abs(exp_v)) + err[i]:
+                    fails.add("violation-amount" + sfx, element=k, point=pd, got=got_v, expected=exp_v, sense=sense)
+                    break
+                if abs(exp_v - 1e-8) > 1e-10 + err[i] and got_s != (exp_v <= 1e-8):
+                    fails.add("is_satisfied" + sfx, element=k, point=pd, got=got_s, violation=exp_v)
+                    break
+    params = {pn: 0.75 for pn in params}
     if fails or not capture or not names:
         return fails
     # inside the solver: capture what reaches scipy for SLSQP and trust-constr (scripted answer, no real solve)
@@ -176,6 +189,19 @@ def check_constraint(c, rep=None, want=None, capture=True):
             fails.add("variable-order", got=[v.name for v in P_.variables], expected=names)
             continue
         CAP.check_constraints(s.calls[0].kw, pr, names, fails, rep, params)
+        if params and not fails:
+            # the same problem object after Parameter.set(): what reaches the back-end follows the new value
+            try:
+                for pn in params:
+                    b2.parameter(pn).set(2.0)
+                with Seam(script=[lambda call: result(np.zeros(n), fun=0.0)] * 2, passthrough=False) as s2:
+                    P_.solve(method=method)
+                before = len(fails)
+                CAP.check_constraints(s2.calls[0].kw, pr, names, fails, rep, {pn: 2.0 for pn in params})
+                for j in range(before, len(fails)):
+                    fails[j] = (fails[j][0] + ":after-parameter-set", fails[j][1])
+            except Exception as ex:
+                fails.add("exception:solve-after-parameter-set:" + type(ex).__name__, method=method, msg=str(ex)[:200])
     return fails
 
 
